@@ -164,7 +164,10 @@ func (c *Class) Evaluation(
 		parentFrame, parentNamespace, parentClass :=
 			base.SeparateNameSpaces(nextT.ToString())
 
-		if slices.Contains(base.BuiltinClasses, parentClass) && parentNamespace == "" {
+		// an unqualified parent is the configured class only when one of that name
+		// is configured in the Builtin frame itself (BuiltinClasses also lists the
+		// class names of every other frame)
+		if base.IsClassDefined([]string{}, parentClass) && parentNamespace == "" {
 			parentFrame = "Builtin"
 		} else {
 			parentFrame = base.CalculateFrame(parentFrame, parentNamespace)
